@@ -81,7 +81,8 @@ class _Cnt(Exception):
 
 _BUILTINS = {"any": any, "all": all, "dict": dict, "list": list, "tuple": tuple, "set": set, "len": len, "bool": bool,
              "sorted": sorted, "zip": zip, "enumerate": enumerate, "range": range, "isinstance": None, "str": str,
-             "True": True, "False": False, "None": None, "reversed": reversed, "sum": None}
+             "True": True, "False": False, "None": None, "reversed": reversed, "sum": None,
+             "MappingProxyType": (lambda d: d), "frozenset": frozenset}      # (a read-only view answers the same lookups)
 _METHODS = {dict: {"items", "keys", "values", "get", "copy", "setdefault", "update"},
             list: {"append", "extend", "copy", "index", "count"},
             tuple: {"index", "count"}, set: {"add", "copy", "union"}, str: {"lower", "upper", "startswith", "endswith", "format"}}
